@@ -110,6 +110,14 @@ def handle (req : Json) : Except String Json := do
     pure (obj [("outs", ofList ofNat r.1), ("err", ofOpt ofNat r.2),
                ("spec_outs", ofList ofNat (allOuts c)), ("spec_errs", ofList ofNat (allErrs c)),
                ("wrapper_skips", Json.bool (wrapperSkips c.items))])
+  | "indep" =>
+    -- the independence table, evaluated on pairs of actions the harness met (its sleep sets use a Python copy of it)
+    let ps ← arr (← field req "pairs")
+    let rs ← ps.mapM (fun p => do
+      match (← arr p) with
+      | [a, b] => pure (Json.bool (indep (← parseAction a) (← parseAction b)))
+      | _ => throw "pair expected")
+    pure (obj [("indep", Json.arr rs.toArray)])
   | "trace" =>
     let tr ← arr (← field req "trace")
     -- error ids the CobaMultiprocessor wrapper turns into CobaExit (none for the filter's own errors in the fixed code)
